@@ -1,7 +1,7 @@
 /-
   The vocabulary of the regenerated-fact ties. The lock policy (`Proofs/Lockset`) and the callback ties (`Props/C11t`)
-  name struct fields and mutexes of the Go sources. If a field they name no longer exists (`Generated.structFields`
-  is regenerated on every run), the sources have been renamed under the policy: the tie then says nothing (its
+  name struct fields, mutexes and functions of the Go sources. If one of them no longer exists (`Generated.structFields`,
+  `Generated.funcNames` are regenerated on every run), the sources have been renamed under the policy: the tie then says nothing (its
   theorem is guarded by `known …`) instead of reading the renamed mutex as a missing one. `bin/check` evaluates
   `missing …` on every run and records a vacuous tie in the evidence; the race-detector pass and the correspondence
   streams are not affected.
@@ -10,18 +10,26 @@ import MqttVerif.Generated.Facts
 
 namespace Mqtt.Vocab
 
+/-- the functions the lock policy names: the contexts of its ordered exceptions and the closures it knows to run on the
+    task goroutine (without the `$go` / `$closure` suffix of the access table) -/
+def lockPolicyFuncs : List String :=
+  ["(*BaseClient).serve", "(*BaseClient).Connect", "(*BaseClient).Ping", "publishImpl", "subscribeImpl", "unsubscribeImpl",
+   "(*RetryClient).SetClient", "(*RetryClient).publish", "(*RetryClient).subscribe", "(*RetryClient).unsubscribe",
+   "(*RetryClient).retryWithTimeout"]
+
 /-- the names the lock policy, its exception list and its non-vacuity statement are written in -/
 def lockPolicy : List String :=
   ["signaller.mu", "BaseClient.err", "BaseClient.muErr", "BaseClient.stats", "BaseClient.muStats", "BaseClient.mu",
    "RetryClient.stats", "RetryClient.muStats", "RetryClient.retryQueue", "RetryClient.subEstablished",
    "RetryClient.newRetryByError", "RetryClient.mu", "firstError.err", "firstError.mu",
    "BaseClient.sig", "BaseClient.connClosed", "signaller.chConnAck", "RetryClient.chTask",
-   "RetryClient.taskQueue", "signaller.chPubAck", "BaseClient.muConnecting", "BaseClient.muWrite"]
+   "RetryClient.taskQueue", "signaller.chPubAck", "BaseClient.muConnecting", "BaseClient.muWrite"] ++ lockPolicyFuncs
 
 /-- the names the callback ties are written in -/
 def callbackTie : List String := ["BaseClient.muConnecting", "RetryClient.mu"]
 
-def missing (v : List String) : List String := v.filter (fun n => !Generated.structFields.contains n)
+def missing (v : List String) : List String :=
+  v.filter (fun n => !Generated.structFields.contains n && !Generated.funcNames.contains n)
 
 def known (v : List String) : Bool := (missing v).isEmpty
 
